@@ -30,6 +30,7 @@ class Axiom:
     expr: str
     reason: str
     triggers: list[str] | None = None
+    manual: bool = False  # not asserted as a quantified fact; only ground instances named in calls= are used
 
 
 @dataclasses.dataclass
@@ -100,8 +101,8 @@ def abstract(name, params, ret):
     ABSTRACT[name] = (list(params), ret)
 
 
-def axiom(name, vars, expr, reason, triggers=None):
-    AXIOMS.append(Axiom(name, dict(vars), expr, reason, triggers))
+def axiom(name, vars, expr, reason, triggers=None, manual=False):
+    AXIOMS.append(Axiom(name, dict(vars), expr, reason, triggers, manual))
 
 
 def spec_file(path):
